@@ -7,9 +7,10 @@ import random
 from . import core, session, crash, ts004
 
 
-def build_base(rnd, ffr=False):
+def build_base(rnd, ffr=False, wrapped=False):
     while True:
         ns, slot, blk, sz, n = session.pick_geometry(rnd, True)
+        if wrapped: ns = 5
         blk = max(blk, 256)
         slot = -(-slot // blk) * blk
         cap = session.max_l(slot, sz)
@@ -19,7 +20,11 @@ def build_base(rnd, ffr=False):
     img = ts004.make_image(rnd, n, sz)
     seq, mode, lost = session.delivery_plan(rnd, n, min(cap, 6), mode=rnd.choice(["data-then-coded", "coded-first", "shuffled"]))
     s = session.Scn(ns, slot, blk)
-    s.meta = dict(n=n, sz=sz, cap=cap, img=img, seq=seq, mode=mode, lost=sorted(lost), ffr=ffr)
+    if wrapped:
+        session.prior_history(rnd, s, ["confirm", "confirm"])          # the session's pair is then (slot 4, slot 0)
+    elif rnd.random() < 0.3:
+        session.prior_history(rnd, s, [rnd.choice(["confirm", "reject", "cancel"]) for _ in range(rnd.randint(1, 4))])
+    s.meta = dict(n=n, sz=sz, cap=cap, img=img, seq=seq, mode=mode, lost=sorted(lost), ffr=ffr, wrapped=wrapped)
     s.meta["fb_before"] = s.add("fb"); s.meta["fbvalid_before"] = s.add("validfb")
     s.meta["start_op"] = s.add("start %d %d" % (sz, n))
     s.meta["seg_ops"] = [s.add(session.seg_op(img, n, sz, i, ffr)) for i in seq]
@@ -54,6 +59,8 @@ def crash_case(base, refout, counts, k, resend):
     me = base.meta
     loc = crash.locate(counts, k)
     s = session.Scn(base.ns, base.slot, base.blk)
+    for o in base.ops[:me["start_op"]]:            # earlier updates (ring position) and the queries before the start
+        s.add(o)
     s.add("crash %d" % k)
     core_ops = base.ops[me["start_op"]:me["done_op"] + 1]
     for o in core_ops:
@@ -142,8 +149,8 @@ def oracle(s, out):
 def run(chk):
     chk.prove()
     rnd = random.Random(chk.seed)
-    nbase, limit = (10, 60) if chk.quick() else (300, 400)
-    bases = [build_base(rnd) for _ in range(nbase)] + [build_big_base(rnd) for _ in range(3 if chk.quick() else 60)]
+    nbase, limit = (10, 60) if chk.quick() else (120, 300)
+    bases = [build_base(rnd) for _ in range(nbase)] + [build_base(rnd, wrapped=True) for _ in range(2 if chk.quick() else 20)] + [build_big_base(rnd) for _ in range(3 if chk.quick() else 30)]
     lines, impl, refouts = session.run(chk, bases, stream="session-crash-ref")
     cases = []
     for b, ro in zip(bases, refouts):
@@ -182,7 +189,7 @@ def run(chk):
         nt.append(l)
     chk.note_cases("session-crash", clines, nt, sample_n=1, dist=dist)
     return chk.finish(level="proof",
-        rule="session-crash: for each base delivery (capacity >= 1, up to 6 losses, three delivery orders; plus big-loss bases with 9..20 losses where power is lost from the seventh coded fragment on) power is lost at every modifying flash operation of start_update, every handle_segment and check_and_mark_done "
+        rule="session-crash: for each base delivery (capacity >= 1, up to 6 losses, three delivery orders, ring positions from random earlier updates and explicitly the pair that wraps the ring end; plus big-loss bases with 9..20 losses where power is lost from the seventh coded fragment on) power is lost at every modifying flash operation of start_update, every handle_segment and check_and_mark_done "
              "(all boundaries; inside long erase runs the first, second and last block; sampled when a script has more than %d), each with both continuations (interrupted fragment re-sent / lost), then reboot, try_recover, remainder, one full data pass, final check; "
              "non-trivial = every crash case; distinct by case text" % limit,
         trusted=core.TRUSTED_COMMON + ["C06: power loss = prefix of the operation log (block-atomic erase); torn programs are C04's"])
